@@ -493,6 +493,13 @@ func (c *Concretizer) buildRequest(o *ROp, variant int) ([]byte, int) {
 	switch o.Wf {
 	case "extrahdr":
 		headers["typ"] = "JWT"
+	case "extrahdr_b64true":
+		headers["b64"] = true
+	case "extrahdr_b64false":
+		headers["b64"] = false // RFC 7797: the signature then covers the raw payload
+	case "extrahdr_crit":
+		headers["crit"] = []interface{}{"exp"}
+		headers["exp"] = 1
 	case "algnone":
 		headers["alg"] = "none"
 	case "algdisallowed":
@@ -507,6 +514,13 @@ func (c *Concretizer) buildRequest(o *ROp, variant int) ([]byte, int) {
 	}
 
 	signedData := compactJWS(headers, payload, signWith)
+	if o.Wf == "extrahdr_b64false" {
+		// signed as RFC 7797 prescribes, so that only the header rule stands between it and acceptance
+		hb, _ := json.Marshal(headers)
+		sig := signWith.Sign([]byte(b64(hb) + "." + string(payload)))
+		signedData = b64(hb) + "." + b64(payload) + "." + b64(sig)
+	}
+
 	nVariants := 1
 
 	if o.Sig != "ok" && o.Sig != "otherkey" {
